@@ -261,7 +261,15 @@ func (s *Segment) resolveFarPointer(paddr address) (dst *Segment, base address, 
 		if dst, err = s.lookupSegment(far.farSegment()); err != nil {
 			return nil, 0, 0, annotate(err).errorf("double-far pointer")
 		}
-		return dst, 0, landingPadNearPointer(far, tag), nil
+		resolved = landingPadNearPointer(far, tag)
+		if resolved == 0 {
+			// A zero-sized struct at the start of its segment: the
+			// equivalent near pointer relative to address 0 is all
+			// zeros, which would read as a null pointer.  Describe the
+			// same object relative to the following word instead.
+			return dst, address(wordSize), rawStructPointer(-1, ObjectSize{}), nil
+		}
+		return dst, 0, resolved, nil
 	case farPointer:
 		var err error
 		dst, err = s.lookupSegment(val.farSegment())
